@@ -41,6 +41,7 @@ From FB.Proofs Require BookGenLaws.
 From FB.Proofs Require ExecGenLaws.   (* T1g: the model routines are equal to the translation of the source (Gen/ExecGen.v) *)
 From FB.Proofs Require CacheGenLaws.   (* T1g: the model routines are equal to the translation of the source (Gen/CacheGen.v) *)
 From FB.Proofs Require OpsGenLaws.   (* T1g: build_file*, subbuild, queries, cache validation of file_builder.py = Model/Builder.v (Gen/OpsGen.v) *)
+From FB.Proofs Require DriverGenLaws.   (* T1g: _build, _roll_back, _commit, clean, _make_dirs, _make_room, FileBackups = Model/Build.v, Builder.v (Gen/DriverGen.v) *)
 Import ListNotations.
 
 Theorem C01_build_transparent : forall (kp : kappa) (F : ftable) fs cf old vers clock nextid root,
